@@ -457,6 +457,8 @@ ACCEPTED_BOUNDS = {
     ('utils.remove_quotes', 'val[0]'): 'TOKEN-NONEMPTY (C01 R1.2): callers pass token.value, which is never empty',
     ('utils.remove_quotes', 'val[-1]'): 'TOKEN-NONEMPTY',
     ('sql.Function.get_window', 'over_clause.tokens[-1]'): 'NONEMPTY-GROUP',
+    ('engine.grouping._group_matching', 'tlist.tokens[0]'): 'under isinstance(tlist, <matched class>): the matched group classes are built from two distinct delimiter tokens (R9.1)',
+    ('engine.grouping._group_matching', 'tlist.tokens[-1]'): 'under isinstance(tlist, <matched class>): the matched group classes are built from two distinct delimiter tokens (R9.1)',
     ('engine.grouping._group', 'tlist.tokens[0]'): 'the matched group classes are built from two distinct delimiter tokens (R9.1)',
     ('engine.grouping._group', 'tlist.tokens[-1]'): 'the matched group classes are built from two distinct delimiter tokens (R9.1)',
 }
